@@ -33,7 +33,6 @@ def gaps_for(t_units):
 
 
 def gen_cases(ctx):
-    cases = []
     quick = ctx.quick
     L = 4 if quick else 6
     units = [("ns", 10 ** 9), ("7", 7)]
@@ -57,7 +56,7 @@ def gen_cases(ctx):
                         kind = pat if pat != "mix" else ("cau" if k % 2 == 0 else "cfu")
                         ops.append("%s %d" % (kind, now))
                     ops.append("dump")
-                    cases.append(ops)
+                    yield ops
     # (ii) random long timelines, biased to window boundaries
     rng = ctx.rng
     nrand = 150 if quick else 2000
@@ -88,10 +87,10 @@ def gen_cases(ctx):
             else:
                 ops.append("dump")
         ops.append("dump")
-        cases.append(ops)
+        yield ops
     # (iii) malformed / outside-the-hypothesis stream (model-vs-implementation only)
     for n, tsec in [(0, 1), (1, 0), (1, -1), (0, 0)]:
-        cases.append(["init ns %d %d 0" % (tsec, n), "cau 5", "dump"])
+        yield ["init ns %d %d 0" % (tsec, n), "cau 5", "dump"]
     for _ in range(40 if quick else 400):
         uname, u = rng.choice(units)
         tsec = rng.choice([1, 2])
@@ -102,8 +101,7 @@ def gen_cases(ctx):
             ops.append("%s %d" % (rng.choice(["cau", "cfu", "check", "update"]),
                                    rng.randrange(-2 * tsec * u, 4 * tsec * u)))
         ops.append("dump")
-        cases.append(ops)
-    return cases
+        yield ops
 
 
 def nontrivial(ops, out):
@@ -126,8 +124,7 @@ def main(ctx):
     except vlib.BuildError as e:
         ctx.broken.append("harness-build: " + str(e)[:500])
         return
-    cases = gen_cases(ctx)
-    vlib.seq_correspondence(ctx, hcmd, dcmd, cases, nontrivial=nontrivial, keep_prefix=1)
+    vlib.seq_correspondence_batched(ctx, hcmd, dcmd, gen_cases(ctx), batch=500000, nontrivial=nontrivial, keep_prefix=1)
     if (ctx.broken and not any(f for _, f in ctx.violations)) or not ctx.quick:
         long_history_search(ctx, hcmd)
     ctx.cov["exhaustive"] = True
